@@ -1,4 +1,259 @@
-import GcmpyModel.Model.MPCC
+import GcmpyModel.Lemmas.MPCC
+/-!
+C10 — `MPCC` (gcmpy/covers/mpcc.py) is a greedy, maximal-first, edge-disjoint clique cover, and every edge
+ends up labelled with (size, members, id) of the unique accepted clique containing it.
+
+Inputs of the model: the edge list of a simple graph (`Simple`), `max_size`, and the clique list `L` as it
+is after `shuffle` — any list satisfying the contract `Enumerates` of `nx.enumerate_all_cliques`
+(`order_irrelevant`: the contract is invariant under permutation, so every theorem holds for every shuffle
+outcome).  `cov = cover edges maxSize L` is the list of accepted cliques in acceptance order.
+Vocabulary (`Simple`, `IsClique`, `Enumerates`, `HasPair`) is defined in `Lemmas/MPCC.lean`.
+Each theorem lists only the hypotheses it needs.
+-/
 namespace Gcmpy.MPCC
-theorem placeholder_c10 : True := trivial
+open Gcmpy Gcmpy.Graph Gcmpy.Generate
+
+/-! ### 1. the sort -/
+
+theorem sortDesc_perm (L : List (List Nat)) : (sortDesc L).Perm L := sortDesc_perm_lem L
+
+theorem sortDesc_sorted (L : List (List Nat)) :
+    (sortDesc L).Pairwise (fun a b => b.length ≤ a.length) := sortDesc_sorted_lem L
+
+/-- stability: cliques of equal size keep their shuffled order -/
+theorem sortDesc_stable (L : List (List Nat)) (k : Nat) :
+    (sortDesc L).filter (fun c => c.length = k) = L.filter (fun c => c.length = k) := sortDesc_stable_lem L k
+
+/-! ### 2. accepted cliques are listed cliques within the limit, in non-increasing size order -/
+
+theorem cover_sublist {edges : List Edge} {maxSize : Nat} {L : List (List Nat)}
+    (hL : Enumerates edges L) :
+    (∀ c ∈ cover edges maxSize L, c ∈ L ∧ IsClique edges c ∧ (maxSize > 0 → c.length ≤ maxSize)) ∧
+    (cover edges maxSize L).Sublist (sortDesc L) ∧
+    (cover edges maxSize L).Pairwise (fun a b => b.length ≤ a.length) := by
+  have hsub : (cover edges maxSize L).Sublist (sortDesc L) := greedy_sublist _ _ _
+  refine ⟨?_, hsub, (sortDesc_sorted_lem L).sublist hsub⟩
+  intro c hc
+  have hcL : c ∈ L := (mem_sortDesc L c).1 (hsub.subset hc)
+  exact ⟨hcL, hL.1 c hcL, greedy_size _ _ _ c hc⟩
+
+theorem cover_nodup {edges : List Edge} {maxSize : Nat} {L : List (List Nat)}
+    (hL : Enumerates edges L) : ∀ c ∈ cover edges maxSize L, c.Nodup :=
+  fun c hc => ((cover_sublist hL).1 c hc).2.1.1
+
+/-! ### 3. edge-disjointness -/
+
+theorem cover_edge_disjoint {edges : List Edge} {maxSize : Nat} {L : List (List Nat)}
+    (hL : Enumerates edges L) :
+    (cover edges maxSize L).Pairwise (fun c d => ∀ a b, HasPair c a b → ¬ HasPair d a b) :=
+  greedy_disjoint _ _ _ (fun c hc => (hL.1 c ((mem_sortDesc L c).1 hc)).1)
+
+/-! ### 6. maximal-first greedy (stated before 4, which is its 2-clique instance) -/
+
+theorem greedy_maximal {edges : List Edge} {maxSize : Nat} {L : List (List Nat)}
+    (hL : Enumerates edges L) :
+    ∀ c, IsClique edges c → 2 ≤ c.length → (maxSize = 0 ∨ c.length ≤ maxSize) →
+      ∃ d ∈ cover edges maxSize L, c.length ≤ d.length ∧ ∃ a b, HasPair c a b ∧ HasPair d a b := by
+  intro c hc hl hsz
+  obtain ⟨d, hdL, hdc⟩ := hL.2 c hc hl
+  have hlen : d.length = c.length := hdc.length_eq
+  have hn : ∀ c ∈ sortDesc L, c.Nodup := fun c hc => (hL.1 c ((mem_sortDesc L c).1 hc)).1
+  have hdcl := hL.1 d hdL
+  rcases greedy_maximal_aux maxSize (sortDesc L) edges hn (sortDesc_sorted_lem L) d
+      ((mem_sortDesc L d).2 hdL) (by omega) with h | ⟨a, b, hab, h | ⟨d', hd', hl', hd'ab⟩⟩
+  · obtain ⟨x, y, hxy⟩ : ∃ x y, HasPair c x y := by
+      match c, hc, hl with
+      | x :: y :: r, hc, _ =>
+        refine ⟨x, y, by simp, by simp, ?_⟩
+        intro e; subst e
+        exact absurd hc.1 (by simp)
+    exact ⟨d, h, by omega, x, y, hxy, (hasPair_perm hdc x y).2 hxy⟩
+  · rw [hdcl.2 a hab.1 b hab.2.1 hab.2.2] at h
+    exact absurd h (by simp)
+  · exact ⟨d', hd', by omega, a, b, (hasPair_perm hdc a b).1 hab, hd'ab⟩
+
+/-! ### 4. every edge is covered, by exactly one accepted clique -/
+
+theorem every_edge_covered {edges : List Edge} {maxSize : Nat} {L : List (List Nat)}
+    (hs : Simple edges) (hL : Enumerates edges L) (hm : maxSize = 0 ∨ 2 ≤ maxSize) :
+    ∀ e ∈ edges, ∃ c ∈ cover edges maxSize L, HasPair c e.1 e.2 := by
+  intro e he
+  have hne : e.1 ≠ e.2 := hs.2.1 e he
+  have hcl : IsClique edges [e.1, e.2] := by
+    refine ⟨by simp [hne], ?_⟩
+    intro a ha b hb hab
+    simp only [List.mem_cons, List.not_mem_nil, or_false] at ha hb
+    rw [hasEdge_iff]
+    rcases ha with rfl | rfl <;> rcases hb with rfl | rfl
+    · exact absurd rfl hab
+    · exact Or.inl he
+    · exact Or.inr he
+    · exact absurd rfl hab
+  obtain ⟨d, hd, _, a, b, hab, hdab⟩ := greedy_maximal (maxSize := maxSize) hL [e.1, e.2] hcl
+    (by simp) (by simp only [List.length_cons, List.length_nil]; omega)
+  refine ⟨d, hd, ?_⟩
+  obtain ⟨ha, hb, hne'⟩ := hab
+  simp only [List.mem_cons, List.not_mem_nil, or_false] at ha hb
+  rcases ha with rfl | rfl <;> rcases hb with rfl | rfl
+  · exact absurd rfl hne'
+  · exact hdab
+  · exact hdab.symm
+  · exact absurd rfl hne'
+
+/-- exactly one position of the cover contains a given edge -/
+theorem edge_in_exactly_one {edges : List Edge} {maxSize : Nat} {L : List (List Nat)}
+    (hs : Simple edges) (hL : Enumerates edges L) (hm : maxSize = 0 ∨ 2 ≤ maxSize) :
+    ∀ e ∈ edges, ∃ (id : Nat) (c : List Nat), (cover edges maxSize L)[id]? = some c ∧ HasPair c e.1 e.2 ∧
+      ∀ (id' : Nat) (c' : List Nat), (cover edges maxSize L)[id']? = some c' → HasPair c' e.1 e.2 → id' = id := by
+  intro e he
+  obtain ⟨c, hc, hce⟩ := every_edge_covered hs hL hm e he
+  obtain ⟨id, hid⟩ := List.mem_iff_getElem?.1 hc
+  refine ⟨id, c, hid, hce, ?_⟩
+  intro id' c' hid' hc'e
+  have hd := cover_edge_disjoint (maxSize := maxSize) hL
+  rcases Nat.lt_trichotomy id' id with h | h | h
+  · exact absurd hce (pairwise_getElem? hd hid' hid h _ _ hc'e)
+  · exact h
+  · exact absurd hc'e (pairwise_getElem? hd hid hid' h _ _ hce)
+
+/-! ### 5. labels -/
+
+/-- all pairs of an accepted clique carry its label (size = member count, members, id = position) -/
+theorem label_complete {edges : List Edge} {maxSize : Nat} {L : List (List Nat)}
+    (hL : Enumerates edges L) {id : Nat} {c : List Nat}
+    (hc : (cover edges maxSize L)[id]? = some c) :
+    ∀ a b, HasPair c a b →
+      Dict.get (labelMap (cover edges maxSize L)) (normE (a, b)) = some ⟨c.length, c, id⟩ :=
+  fun _ _ hab => labelMap_complete _ (cover_nodup hL) (cover_edge_disjoint hL) hc hab
+
+/-- each edge carries exactly the label of the one accepted clique containing it -/
+theorem label_of_edge {edges : List Edge} {maxSize : Nat} {L : List (List Nat)}
+    (hs : Simple edges) (hL : Enumerates edges L) (hm : maxSize = 0 ∨ 2 ≤ maxSize) :
+    ∀ e ∈ edges, ∃ (c : List Nat) (id : Nat), (cover edges maxSize L)[id]? = some c ∧ HasPair c e.1 e.2 ∧
+      Dict.get (labelMap (cover edges maxSize L)) (normE e) = some ⟨c.length, c, id⟩ := by
+  intro e he
+  obtain ⟨id, c, hid, hce, _⟩ := edge_in_exactly_one hs hL hm e he
+  exact ⟨c, id, hid, hce, label_complete hL hid e.1 e.2 hce⟩
+
+/-- every stored label describes an accepted clique: `members` is the clique at position `id`, `size` its
+    member count, and the labelled key is one of its pairs -/
+theorem label_sound {edges : List Edge} {maxSize : Nat} {L : List (List Nat)}
+    (hL : Enumerates edges L) {k : Edge} {l : Lab}
+    (h : Dict.get (labelMap (cover edges maxSize L)) k = some l) :
+    (cover edges maxSize L)[l.id]? = some l.members ∧ l.size = l.members.length ∧
+      ∃ a b, HasPair l.members a b ∧ k = normE (a, b) :=
+  labelMap_sound _ (cover_nodup hL) h
+
+/-- ids are positions in the cover: two stored labels with the same id are the same label (same members,
+    same size), i.e. the id identifies the motif -/
+theorem ids_unique {edges : List Edge} {maxSize : Nat} {L : List (List Nat)}
+    (hL : Enumerates edges L) {k k' : Edge} {l l' : Lab}
+    (h : Dict.get (labelMap (cover edges maxSize L)) k = some l)
+    (h' : Dict.get (labelMap (cover edges maxSize L)) k' = some l') (hid : l.id = l'.id) : l = l' := by
+  obtain ⟨h1, h2, _⟩ := label_sound hL h
+  obtain ⟨h1', h2', _⟩ := label_sound hL h'
+  rw [hid, h1'] at h1
+  have hm : l'.members = l.members := Option.some.inj h1
+  cases l; cases l'
+  simp only at hid hm h2 h2'
+  simp only [Lab.mk.injEq]
+  exact ⟨by rw [h2, h2', hm], hm.symm, hid⟩
+
+/-- two edges carry the same id iff they lie in the same accepted clique (same position) -/
+theorem same_id_iff_same_clique {edges : List Edge} {maxSize : Nat} {L : List (List Nat)}
+    (hL : Enumerates edges L) {id : Nat} {c : List Nat}
+    (hc : (cover edges maxSize L)[id]? = some c) {k : Edge} {l : Lab}
+    (h : Dict.get (labelMap (cover edges maxSize L)) k = some l) :
+    l.id = id ↔ ∃ a b, HasPair c a b ∧ k = normE (a, b) := by
+  constructor
+  · intro hid
+    obtain ⟨h1, _, h3⟩ := label_sound hL h
+    rw [hid, hc] at h1
+    rw [← Option.some.inj h1] at h3
+    exact h3
+  · rintro ⟨a, b, hab, rfl⟩
+    rw [label_complete hL hc a b hab] at h
+    rw [← Option.some.inj h]
+
+theorem label_size_limit {edges : List Edge} {maxSize : Nat} {L : List (List Nat)}
+    (hL : Enumerates edges L) {k : Edge} {l : Lab}
+    (h : Dict.get (labelMap (cover edges maxSize L)) k = some l) :
+    2 ≤ l.size ∧ (maxSize > 0 → l.size ≤ maxSize) := by
+  obtain ⟨h1, h2, a, b, hab, _⟩ := label_sound hL h
+  have hmem : l.members ∈ cover edges maxSize L := List.mem_iff_getElem?.2 ⟨_, h1⟩
+  have hcs := (cover_sublist hL).1 _ hmem
+  refine ⟨?_, fun hm => h2 ▸ hcs.2.2 hm⟩
+  rw [h2]
+  match hl : l.members, hab with
+  | [], hab => simp [HasPair] at hab
+  | [x], hab =>
+    obtain ⟨ha, hb, hne⟩ := hab
+    simp only [List.mem_cons, List.not_mem_nil, or_false] at ha hb
+    exact absurd (ha.trans hb.symm) hne
+  | _ :: _ :: _, _ => simp
+
+/-- the output lists exactly the input edges (normalised), in order -/
+theorem mpcc_graph_unchanged (edges : List Edge) (maxSize : Nat) (L : List (List Nat)) :
+    (mpcc edges maxSize L).map (·.1) = edges.map normE := by
+  simp [mpcc]
+
+/-- the output: every edge of the graph is labelled, with the label of the accepted clique containing it -/
+theorem mpcc_output {edges : List Edge} {maxSize : Nat} {L : List (List Nat)}
+    (hs : Simple edges) (hL : Enumerates edges L) (hm : maxSize = 0 ∨ 2 ≤ maxSize) :
+    ∀ x ∈ mpcc edges maxSize L, ∃ e ∈ edges, ∃ (c : List Nat) (id : Nat), x = (normE e, some ⟨c.length, c, id⟩) ∧
+      (cover edges maxSize L)[id]? = some c ∧ HasPair c e.1 e.2 := by
+  intro x hx
+  simp only [mpcc, List.mem_map] at hx
+  obtain ⟨e, he, rfl⟩ := hx
+  obtain ⟨c, id, hid, hce, hl⟩ := label_of_edge hs hL hm e he
+  exact ⟨e, he, c, id, by rw [hl], hid, hce⟩
+
+/-! ### 7. the shuffle is irrelevant for all of the above -/
+
+theorem order_irrelevant {edges : List Edge} {L L' : List (List Nat)}
+    (hL : Enumerates edges L) (hp : L'.Perm L) : Enumerates edges L' :=
+  ⟨fun c hc => hL.1 c (hp.mem_iff.1 hc),
+   fun c hc hl => let ⟨d, hd, hdc⟩ := hL.2 c hc hl; ⟨d, hp.mem_iff.2 hd, hdc⟩⟩
+
+/-- the brute-force enumeration used by the harness satisfies the contract -/
+theorem allCliques_enumerates (es : List Edge) (nodes : List Nat) (hnod : nodes.Nodup)
+    (hv : ∀ e ∈ es, e.1 ∈ nodes ∧ e.2 ∈ nodes) : Enumerates es (allCliques es nodes) :=
+  allCliques_enumerates_lem es nodes hnod hv
+
+/-! ### 8. examples -/
+
+/-- two triangles `{0,1,2}`, `{1,2,3}` sharing the edge `1-2` -/
+def twoTriangles : List Edge := [(0, 1), (0, 2), (1, 2), (1, 3), (2, 3)]
+
+example : Simple twoTriangles := by decide
+
+example : allCliques twoTriangles [0, 1, 2, 3] =
+    [[3], [2], [2, 3], [1], [1, 3], [1, 2], [1, 2, 3], [0], [0, 2], [0, 1], [0, 1, 2]] := by decide
+
+example : Enumerates twoTriangles (allCliques twoTriangles [0, 1, 2, 3]) :=
+  allCliques_enumerates_lem _ _ (by decide) (by decide)
+
+/-- maximal-first: the triangle listed first among the triangles wins the shared edge; the other triangle
+    is then covered by its two remaining edges; singletons are accepted too and consume ids -/
+example : cover twoTriangles 0 (allCliques twoTriangles [0, 1, 2, 3]) =
+    [[1, 2, 3], [0, 2], [0, 1], [3], [2], [1], [0]] := by decide
+
+example : mpcc twoTriangles 0 (allCliques twoTriangles [0, 1, 2, 3]) =
+    [((0, 1), some ⟨2, [0, 1], 2⟩), ((0, 2), some ⟨2, [0, 2], 1⟩), ((1, 2), some ⟨3, [1, 2, 3], 0⟩),
+     ((1, 3), some ⟨3, [1, 2, 3], 0⟩), ((2, 3), some ⟨3, [1, 2, 3], 0⟩)] := by decide
+
+/-- a different shuffle outcome (the other triangle first) gives the mirror cover -/
+example : cover twoTriangles 0 [[0], [0, 1, 2], [1, 2], [2, 3], [1, 2, 3], [0, 1], [1], [1, 3], [2], [0, 2], [3]] =
+    [[0, 1, 2], [2, 3], [1, 3], [0], [1], [2], [3]] := by decide
+
+/-- `max_size = 2`: triangles are disregarded, every edge is its own clique -/
+example : mpcc twoTriangles 2 (allCliques twoTriangles [0, 1, 2, 3]) =
+    [((0, 1), some ⟨2, [0, 1], 4⟩), ((0, 2), some ⟨2, [0, 2], 3⟩), ((1, 2), some ⟨2, [1, 2], 2⟩),
+     ((1, 3), some ⟨2, [1, 3], 1⟩), ((2, 3), some ⟨2, [2, 3], 0⟩)] := by decide
+
+/-- the hypothesis `maxSize = 0 ∨ 2 ≤ maxSize` of `every_edge_covered` is needed: with `max_size = 1`
+    only singletons are accepted and no edge is labelled -/
+example : mpcc twoTriangles 1 (allCliques twoTriangles [0, 1, 2, 3]) =
+    [((0, 1), none), ((0, 2), none), ((1, 2), none), ((1, 3), none), ((2, 3), none)] := by decide
+
 end Gcmpy.MPCC
